@@ -308,6 +308,56 @@ pub fn replay_registry(args: &Args) {
         if option_name(o) != v["opt"].as_str().unwrap() || u16::from(o) != nn {
             rep.bad("C05", "option number maps to the wrong name or not back to itself", json!({"row": v, "got": format!("{:?}", o), "back": u16::from(o)}));
         }
+        // ... and through the coap-message trait layer (Code / OptionNumber of both trait versions)
+        {
+            let on3 = <CoapOption as coap_message_0_3::OptionNumber>::new(nn).map(u16::from).ok();
+            if on3 != Some(nn) || <CoapOption as coap_message_0_3::OptionNumber>::new(nn).ok() != Some(CoapOption::from(nn)) {
+                rep.bad("C05", "option number through coap-message 0.3 OptionNumber", json!({"row": v}));
+            }
+            if n <= 255 {
+                let b = n as u8;
+                let c3 = <MessageClass as coap_message_0_3::Code>::new(b).ok();
+                let back3 = c3.map(|c| { let x: u8 = c.into(); x });
+                let c2: MessageClass = b.into();
+                fn via02<C: coap_message::Code>(c: C) -> u8 { c.into() }
+                let back2: u8 = via02(c2);
+                if c3 != Some(MessageClass::from(b)) || back3 != Some(b) || back2 != b {
+                    rep.bad("C05", "code byte through the coap-message Code trait", json!({"row": v}));
+                }
+                // second-level accessors of requests / responses
+                let mut rq: CoapRequest<String> = CoapRequest::new();
+                rq.message.header.code = MessageClass::from(b);
+                let m = *rq.get_method();
+                let want_m = match MessageClass::from(b) { MessageClass::Request(r) => method_name(r), _ => "-" };
+                if method_name(m) != want_m {
+                    rep.bad("C05", "get_method disagrees with the code table", json!({"row": v, "got": method_name(m)}));
+                }
+                if let MessageClass::Request(r) = MessageClass::from(b) {
+                    let mut q: CoapRequest<String> = CoapRequest::new();
+                    q.set_method(r);
+                    if u8::from(q.message.header.code) != b {
+                        rep.bad("C05", "set_method stores another code", json!({"row": v}));
+                    }
+                }
+                let mut rp = Packet::new();
+                rp.header.code = MessageClass::from(b);
+                if let Some(mut resp) = coap_lite::CoapResponse::new(&Packet::new()) {
+                    resp.message.header.code = MessageClass::from(b);
+                    let st = *resp.get_status();
+                    let want_s = match MessageClass::from(b) { MessageClass::Response(r) => response_name(r), _ => "-" };
+                    if response_name(st) != want_s {
+                        rep.bad("C05", "get_status disagrees with the code table", json!({"row": v, "got": response_name(st)}));
+                    }
+                    if let MessageClass::Response(r) = MessageClass::from(b) {
+                        resp.set_status(r);
+                        if u8::from(resp.message.header.code) != b {
+                            rep.bad("C05", "set_status stores another code", json!({"row": v}));
+                        }
+                    }
+                }
+                let _ = rp;
+            }
+        }
         // the same numbers through the message-level accessors (raw option bytes -> named value -> bytes)
         {
             let raw: Vec<u8> = if nn == 0 { vec![] } else if nn < 256 { vec![nn as u8] } else { nn.to_be_bytes().to_vec() };
